@@ -74,6 +74,9 @@ func (codecV1) ReadHeadBody(r io.Reader) ([]byte, []byte, error) {
 	if length > V1MaxPayloadBytes {
 		return nil, nil, fmt.Errorf("payload size %d overflow", length)
 	}
+	if length < V1HeaderSize {
+		return nil, nil, fmt.Errorf("payload size %d less than header size", length)
+	}
 	var payload = make([]byte, length-V1HeaderSize)
 	if _, err := io.ReadFull(r, payload); err != nil {
 		return nil, nil, err
